@@ -164,6 +164,12 @@ func vTraceStart(sp *SAMLServiceProvider)
 func vTraceCut(published *dsig.SigningContext)
 func vTraceEnd()
 func vRaceFree(threads int, body func()) bool
+
+// vPoolUseAfterPut: how often bytes were read through a slice viewing a buffer already returned to a sync.Pool
+func vPoolUseAfterPut() int
+
+// vConcurrently(n, body): body once symbolically; natively from n goroutines, repeatedly (race-detector replay)
+func vConcurrently(n int, body func())
 func vhC17SPNative() *SAMLServiceProvider
 func vGlobalWritesReset()
 func vGlobalWrites() int
